@@ -26,10 +26,21 @@ def extra_known(ctx):
 def devsets(K):
     K = frozenset(K)
     sets = {frozenset(), K}
+    for d in K:
+        sets.add(K - {d})
     for d in osx.ALLDEVS:
         sets.add(frozenset([d]))
-        sets.add(K - {d} if d in K else K | {d})
+        sets.add(K | {d})
     return sorted(sets, key=lambda s: (len(s), sorted(s)))
+
+
+def sample(vectors, nshapes, seed):
+    """Every vector of a seeded random subset of at most nshapes method shapes."""
+    keys = sorted({hg.shape_key(v) for v in vectors})
+    if len(keys) <= nshapes:
+        return vectors
+    keep = set(random.Random(seed).sample(keys, nshapes))
+    return [v for v in vectors if hg.shape_key(v) in keep]
 
 
 def xb(v):
@@ -44,10 +55,25 @@ def kin_blind(v):
     return False
 
 
+def wire_ambiguous(v):
+    """An empty list in a query string or header is nothing on the wire, and the generated client leaves an empty optional
+    list / map / byte string out of the body: 'empty' and 'not set' cannot be told apart, while the design's rules for the
+    two differ (MinLength applies to a set value only).  Such requests are not judged."""
+    for a, x in zip(v["pa"], v["pv"]):
+        if hg.is_absent(x):
+            continue
+        container = a["nest"] not in ("direct", "alias", "nested")
+        if container and x["cn"] == 0 and (a["loc"] in ("query", "header") or a["mode"] != "required"):
+            return True
+        if a["kind"] == "bytes" and x["n"] == 0 and a["mode"] != "required":
+            return True
+    return False
+
+
 def val_class(a, v):
     if hg.is_absent(v):
         return "absent"
-    return "%s%s" % (v["s"], ":cn%d" % v["cn"] if a["nest"] in ("elem", "mapkey", "mapval") else "")
+    return "%s%s" % (v["s"], ":cn%d" % v["cn"] if a["nest"] not in ("direct", "alias", "nested") else "")
 
 
 def req_matches(mechs, so, inv):
@@ -94,6 +120,9 @@ def judge(ctx, fam, cases, verd, K, nontrivial, pending, traces):
         so, inv = sv["req"] == "ok", o["invoked"]
         al = v["allow"]
         blind = kin_blind(v)
+        if wire_ambiguous(v):
+            ctx.cov["not_judged_wire_ambiguous"] = ctx.cov.get("not_judged_wire_ambiguous", 0) + 1
+            continue
         if not blind:
             traces.append((c["id"], osx.trace_lines(v, o, sv)))
         if so != inv or (al["mustInvoke"] and not so) or (al["mustReject"] and so):
@@ -110,7 +139,7 @@ def judge(ctx, fam, cases, verd, K, nontrivial, pending, traces):
 def run(ctx):
     quick = ctx.quick()
     extra_known(ctx)
-    K = frozenset(d for d in osx.ALLDEVS if d in ctx.known)
+    K = frozenset(d for d in ALL if d in ctx.known)
     ctx.cov["rule"] = ("cases = exchanges (method shape, value vector) enumerated by TLC: the request family of C04 plus raw requests (wrong-type text, negative "
                        "unsigned, JSON null), the result family of C03, and declared-error responses of the C07 designs; each run through the generated client/"
                        "server and validated by kin-openapi against the generated openapi3.json; non-trivial = attribute outside the body, optional/defaulted, with "
@@ -120,35 +149,32 @@ def run(ctx):
                         "documents kin-openapi cannot load are reported by C07 and skipped here",
                         "responses are judged when the service's result satisfies the design (the server does not validate results)",
                         "JSON bodies only"]
-    # (M)
-    ctx.mc("mc/MC_OpenAPIOps", "mc/MC_OpenAPIOps_schema.cfg", label="MC exchanges req", timeout=900)
-    ctx.mc("mc/MC_OpenAPIOps", "mc/MC_OpenAPIOps_schema.cfg", consts={"Family": '"res"'}, label="MC exchanges res", timeout=900)
-    guards = [(d, "req") for d in osx.XDEVS[:6]] + [("schema.response_cookie_value_schema", "res"), ("response.header_array_joined", "res")]
+    # (M) the Gen runs below check the same invariants while emitting the exchanges; every deviation must break one
+    guards = [(d, "req") for d in osx.XDEVS[:6]] + [("schema.response_cookie_value_schema", "res"), ("response.header_array_joined", "res"),
+                                                     (DEDUP, "req")]
     if not quick:
         guards += [(d, "req") for d in ("param.empty_string_is_absent", "validate.absent_collection_length", "mux.double_unescape")]
-    for d, fam in guards:
-        ctx.mc_expect_violation("mc/MC_OpenAPIOps", "mc/MC_OpenAPIOps_schema.cfg", consts={"Family": '"%s"' % fam, "Deviations": '{"%s"}' % d},
-                                label="MC dev " + d, timeout=900)
-    # (G)
-    frac = float(os.environ.get("VERIF_FRAC") or (0.12 if quick else 1.0))
+    import concurrent.futures as cf
+    nshapes = int(os.environ.get("VERIF_SHAPES") or (100 if quick else 100000))     # method shapes per family
     nontrivial, pending, traces = set(), [], []
-    allcases = {}
+    with cf.ThreadPoolExecutor(max_workers=6) as ex:
+        gens = {fam: ex.submit(osx.gen_vectors, ctx, fam, None, 4) for fam in ("req", "res")}
+        gs = [ex.submit(ctx.mc_expect_violation, "mc/MC_OpenAPIOps", "mc/MC_OpenAPIOps_schema.cfg", workers=3,
+                        consts={"Family": '"%s"' % fam, "Deviations": '{"%s"}' % d}, label="MC dev " + d, timeout=900) for d, fam in guards]
+        for g in gs:
+            g.result()
+        # (G)
+        groups = []
+        for fam in ("req", "res"):
+            vectors = sample(gens[fam].result(), nshapes, ctx.seed)
+            groups.append((fam, [v for v in vectors if not xb(v)]))
+            groups.append((fam, [v for v in vectors if xb(v)]))         # designs of their own: their documents may not load
+    cases, pl = osx.run_exchanges(ctx, [g for g in groups if g[1]])
+    verd = osx.verdicts_for(ctx, cases, pl)
     for fam in ("req", "res"):
-        vectors = hc.sample_shapes(osx.gen_vectors(ctx, fam), frac, ctx.seed)
-        for grp, vs in (("", [v for v in vectors if not xb(v)]), ("xb", [v for v in vectors if xb(v)])):
-            if not vs:
-                continue
-            cases, pl = osx.run_exchanges(ctx, fam, vs, name="gen-x%s%s" % (fam, grp))
-            by = {}
-            for c in cases:
-                x = osx.exchange_of(c["id"], c["events"])
-                if x:
-                    by.setdefault(c["design"], []).append(x)
-            verd = osx.schema_verdicts(ctx, pl.root, by)
-            judge(ctx, fam, cases, verd, K, nontrivial, pending, traces)
-            allcases[(fam, grp)] = (cases, pl)
-            for i, f in sorted(pl.failed.items()):
-                ctx.notes.append("%s%s design d%d not usable: %s" % (fam, grp, i, str(f)[:200]))
+        judge(ctx, fam, [c for c in cases if c["tag"] == fam], verd, K, nontrivial, pending, traces)
+    for i, f in sorted(pl.failed.items()):
+        ctx.notes.append("design d%d not usable: %s" % (i, str(f)[:200]))
     # name the disagreements
     table = osx.xevaluate(ctx, [c["v"] for _, _, c, _, _ in pending], devsets(K))
     unexplained = []
@@ -163,6 +189,21 @@ def run(ctx):
             report(ctx, fam, side, c, sv, what, keys)
         else:
             unexplained.append((fam, side, c, sv, what))
+    # two deviations may meet in one exchange (e.g. a sanitized cookie value that becomes empty)
+    if unexplained:
+        pairs = [K | {a, b} for i, a in enumerate(osx.ALLDEVS) for b in osx.ALLDEVS[i + 1:]]
+        t2 = osx.xevaluate(ctx, [c["v"] for _, _, c, _, _ in unexplained], pairs, label="XEval pairs")
+        still = []
+        for fam, side, c, sv, what in unexplained:
+            v, o = c["v"], c["obs"]
+            so, inv = sv["req"] == "ok", o["invoked"]
+            pred = (lambda ms: req_matches(ms, so, inv)) if side == "req" else resp_matches
+            hit = next((ps for ps in pairs if pred(t2.get((osx.xkey(v), frozenset(ps)), []))), None)
+            if hit:
+                report(ctx, fam, side, c, sv, what, sorted(hit - K))
+            else:
+                still.append((fam, side, c, sv, what))
+        unexplained = still
     # a disagreement no deviation of the exchange explains may come from the other methods of the design: run the shape alone
     shapes, keep = set(), []
     for it in unexplained:            # cost is per method shape (one design each): bound the shapes, not the exchanges
@@ -220,13 +261,8 @@ def confirm_alone(ctx, items):
         groups.setdefault(fam, []).append((n, side, c))
     for fam, its in groups.items():
         vs = [c["v"] for _, _, c in its]
-        cases, pl = osx.run_exchanges(ctx, fam, vs, per_design=1, name="gen-solo-" + fam)
-        by = {}
-        for c in cases:
-            x = osx.exchange_of(c["id"], c["events"])
-            if x:
-                by.setdefault(c["design"], []).append(x)
-        verd = osx.schema_verdicts(ctx, pl.root, by)
+        cases, pl = osx.run_exchanges(ctx, [(fam, vs)], per_design=1, name="gen-solo-" + fam)
+        verd = osx.verdicts_for(ctx, cases, pl)
         byid = {c["id"]: c for c in cases}
         for pos, (n, side, c0) in enumerate(its):
             c = byid.get("c%d" % pos)
@@ -332,13 +368,8 @@ def replay(ctx, rp):
         print(json.dumps(case, indent=1)[:3000])
         return 0
     fam = v.get("fam", "req")
-    cases, pl = osx.run_exchanges(ctx, fam, [v], per_design=1, name="gen-replay")
-    by = {}
-    for c in cases:
-        x = osx.exchange_of(c["id"], c["events"])
-        if x:
-            by.setdefault(c["design"], []).append(x)
-    verd = osx.schema_verdicts(ctx, pl.root, by)
+    cases, pl = osx.run_exchanges(ctx, [(fam, [v])], per_design=1, name="gen-replay")
+    verd = osx.verdicts_for(ctx, cases, pl)
     rc = 0
     for c in cases:
         sv = verd.get(c["id"])
